@@ -18,4 +18,6 @@ def check(ctx, rep):
     treer.tree_6(ctx, rep)
     from ..rules import dim as _dim
     _dim.dim_1(ctx, rep)     # child positions are never computed from amounts of text
+    from ..rules import dar as _loop1
+    _loop1.loop_1(ctx, rep, ['parso/python/tree.py', 'parso/tree.py'])      # a value computed for one element of a loop is not used for the next one
     rep.note('Not decided: the comparison with CPython\'s ast over all programs.')
